@@ -95,6 +95,11 @@ def _do(f, op, n):
     if op == "readall":
         return f.read()
     if op == "readinto":
+        if type(n) is int and n >= 2 and n % 2 == 0:        # (concrete amounts only: a traced amount stays a bytearray)
+            # any writable buffer: one whose items are wider than a byte receives n bytes too (as io.BytesIO does)
+            raw = bytearray(n)
+            k = f.readinto(memoryview(raw).cast("H"))
+            return (k, bytes(raw[:k]))
         b = bytearray(max(n, 0))
         k = f.readinto(b)
         return (k, bytes(b[:k]))
